@@ -367,6 +367,11 @@ func (m *Monitor) obsLeave(s *step, p int, how, reason string, killAll bool) {
 	for ck, x := range rl.Calls {
 		if x.Callee == p && !x.Abandoned && x.Caller != p {
 			x := x
+			if cs := m.Sess[x.Caller]; cs != nil && cs.dying {
+				s.find(x.Caller, func(o *ob) bool { return errIs(o, wamp.CALL, x.Req, "") })
+				delete(rl.Calls, ck)
+				continue
+			}
 			s.need(x.Caller, "RP17", map[bool]string{false: "callee gone", true: "callee gone after kill-cancel"}[x.State == callKillOutstanding],
 				fmt.Sprintf("ERROR(CALL,%d,·) because callee P%d ended", x.Req, p),
 				func(o *ob) bool { return errIs(o, wamp.CALL, x.Req, "") })
@@ -418,18 +423,43 @@ func (m *Monitor) obsLeave(s *step, p int, how, reason string, killAll bool) {
 		}
 		regsLeft = append(regsLeft, g)
 	}
+	// When several sessions are ended by one kill request their removal order is
+	// arbitrary, so an on_delete may name any of them as the last member.
+	delCheck := func(id *uint64) func(*wamp.Event) string { return idPairCheck(sid, id) }
+	if ss.dying {
+		sids := map[uint64]bool{}
+		for _, o := range m.Sess {
+			if o.dying {
+				sids[o.SID] = true
+			}
+		}
+		delCheck = func(id *uint64) func(*wamp.Event) string {
+			return func(ev *wamp.Event) string {
+				if len(ev.Arguments) < 2 {
+					return "args"
+				}
+				if v, ok := canon.AsID(ev.Arguments[0]); !ok || !sids[v] {
+					return "session"
+				}
+				if v, ok := canon.AsID(ev.Arguments[1]); !ok || (*id != 0 && v != *id) {
+					return "id"
+				}
+				return ""
+			}
+		}
+	}
 	if m.TrackMeta {
 		for _, g := range subsLeft {
 			un := m.optionalMeta(s, rl, TopicSubOnUnsub, idPairCheck(sid, g.id))
 			if g.del {
-				del := m.expectMeta(s, rl, TopicSubOnDelete, -1, "on_delete", idPairCheck(sid, g.id))
+				del := m.expectMeta(s, rl, TopicSubOnDelete, -1, "on_delete", delCheck(g.id))
 				m.checkOrder(s, un, del, "MT6", "on_unsubscribe/on_delete")
 			}
 		}
 		for _, g := range regsLeft {
 			un := m.optionalMeta(s, rl, TopicRegOnUnreg, idPairCheck(sid, g.id))
 			if g.del {
-				del := m.expectMeta(s, rl, TopicRegOnDelete, -1, "on_delete", idPairCheck(sid, g.id))
+				del := m.expectMeta(s, rl, TopicRegOnDelete, -1, "on_delete", delCheck(g.id))
 				m.checkOrder(s, un, del, "MT6", "on_unregister/on_delete")
 			}
 		}
@@ -472,7 +502,7 @@ func (m *Monitor) optionalMeta(s *step, rl *Realm, topic string, argCheck func(*
 	for _, sub := range rl.subsMatching(topic) {
 		for _, r := range sortedInts(sub.Holders) {
 			rs := m.Sess[r]
-			if rs == nil || !rs.Alive || rs.stalled {
+			if rs == nil || !rs.Alive || rs.stalled || rs.dying {
 				continue
 			}
 			subID := sub.ID
